@@ -3,8 +3,9 @@
 -/
 import Pymodbus.Props.C09
 import Pymodbus.Generated.Tables
+import Pymodbus.Lemmas.FramerSteps
 namespace Pymodbus.Props.C10
-open Pymodbus Pymodbus.Server RegisterFile
+open Pymodbus Pymodbus.Server RegisterFile Pymodbus.Framer
 
 def bcast (cfg : Cfg) (uid : Nat) : Bool := cfg.broadcast && hasBroadcast cfg.frontend && uid == 0
 
@@ -115,5 +116,101 @@ example : bcast ⟨.rtu, .syncSerial, false, true⟩ 0 = true ∧ bcast ⟨.rtu,
 theorem generated_server_structure :
     Generated.serverStructure = allFrontends.map (fun f =>
       (f.name, addsBroadcastUnit f, f.onErrorSrc, isTwisted f, isTwisted f, true, true)) := by rfl
+
+/-! ### a noisy line: only a delivered request can change a unit -/
+
+/-- can this event of a receive call touch the tables kept under key `v`?  Only a delivered request that is a broadcast or
+    is addressed to `v` -/
+def Touches (cfg : Cfg) (v : Int) : Ev Req → Prop
+  | .deliver _ uid _ _ => bcast cfg uid = true ∨ v = (uid : Int)
+  | .raised _ => False
+
+theorem callback_single (cfg : Cfg) (w : World) (r : Req) (uid : Nat) :
+    (callback cfg w r uid).1.units.single = w.units.single := by
+  unfold callback
+  split
+  · rfl
+  · split
+    · split <;> rfl
+    · rfl
+
+theorem countMessage_units (cfg : Cfg) (w : World) : (countMessage cfg w).units = w.units := by
+  unfold countMessage; split <;> rfl
+
+/-- **whatever bytes arrive**: the tables of a hosted unit (multi-unit context) are changed by a receive call only through a
+    DELIVERED request that addresses that unit or is a broadcast — everything else the receiver makes of the bytes (drops,
+    waits, exceptions, requests for other units) leaves them as they were -/
+theorem handleEvents_untouched (cfg : Cfg) (v : Int) (evs : List (Ev Req)) :
+    ∀ (w : World), w.units.single = false → (∀ e ∈ evs, ¬ Touches cfg v e) →
+    ServerCtx.lookup (handleEvents cfg w evs).1.units.slaves v = ServerCtx.lookup w.units.slaves v := by
+  induction evs with
+  | nil => intro w _ _; rfl
+  | cons e rest ih =>
+    intro w hs h
+    cases e with
+    | raised e => rfl
+    | deliver r uid tid pid =>
+      have he := h (.deliver r uid tid pid) (by simp)
+      simp only [Touches, not_or] at he
+      have hb : bcast cfg uid = false := by simpa using he.1
+      have hv : v ≠ (if w.units.single then 0 else (uid : Int)) := by rw [hs]; simpa using he.2
+      have hcb := addressed_unit_only cfg w r uid hb v hv
+      have hs' : (callback cfg w r uid).1.units.single = false := by rw [callback_single, hs]
+      have hrest : ∀ e ∈ rest, ¬ Touches cfg v e := fun e he => h e (by simp [he])
+      simp only [handleEvents]
+      cases hc : callback cfg w r uid with
+      | mk w' resp =>
+        rw [hc] at hcb hs'
+        simp only at hcb hs' ⊢
+        cases resp with
+        | none => simp only []; rw [ih w' hs' hrest, hcb]
+        | some rp =>
+          simp only []
+          split
+          · rw [ih w' hs' hrest, hcb]
+          · split
+            · rw [countMessage_units]; exact hcb
+            · have hs'' : (countMessage cfg w').units.single = false := by rw [countMessage_units]; exact hs'
+              rw [ih _ hs'' hrest, countMessage_units]; exact hcb
+
+
+theorem connStep_world (cfg : Cfg) (conn : Conn) (w : World) (chunk : Bytes) (htls : cfg.framer ≠ .tls) :
+    (connStep cfg conn w chunk).2.1 = w ∨
+    (connStep cfg conn w chunk).2.1 =
+      (handleEvents cfg w (feed (stepFor cfg.framer) decServer (conn.snap.getD (acceptedUnits cfg w.units))
+        w.units.single conn.buf chunk).1).1 := by
+  unfold connStep
+  split
+  · left; rfl
+  · split
+    · left; rfl
+    · right
+      simp only []
+      split <;> (try split) <;> rfl
+
+/-- the same for one chunk arriving on a connection, whatever the chunk is and whatever the connection has buffered: if the
+    receiver delivers nothing that addresses unit `v` (and no broadcast), the tables of `v` after the call are those before
+    it.  With C07's `*_frame_valid` (a delivery is backed by a valid frame carrying that unit id) this is the noisy-line
+    clause: a unit changes only if a complete valid frame in the received bytes addresses it. -/
+theorem connStep_untouched (cfg : Cfg) (conn : Conn) (w : World) (chunk : Bytes) (v : Int)
+    (hs : w.units.single = false) (htls : cfg.framer ≠ .tls)
+    (h : ∀ e ∈ (feed (stepFor cfg.framer) decServer (conn.snap.getD (acceptedUnits cfg w.units))
+        w.units.single conn.buf chunk).1, ¬ Touches cfg v e) :
+    ServerCtx.lookup (connStep cfg conn w chunk).2.1.units.slaves v = ServerCtx.lookup w.units.slaves v := by
+  rcases connStep_world cfg conn w chunk htls with h1 | h1
+  · rw [h1]
+  · rw [h1]; exact handleEvents_untouched cfg v _ w hs h
+
+/-- Non-vacuity (the noisy line of seeded change C10-13, ASCII, units 1 and 2): a complete write to unit 2 is delivered as a
+    request for unit 2 — an event that does not touch unit 1; and the same frame arriving behind `:0106`, the head of a frame
+    for unit 1 cut before its end, delivers nothing at all (the receiver drops both): in either case `connStep_untouched`
+    applies to unit 1. -/
+example :
+    (feed (stepFor .ascii) decServer [1, 2] false [] (asciiFrame 2 6 [0, 1, 0x12, 0x34])).1 =
+      [.deliver (.writeRegister 1 0x1234) 2 0 0] ∧
+    ¬ Touches ⟨.ascii, .syncSerial, false, false⟩ 1 (.deliver (.writeRegister 1 0x1234) 2 0 0) ∧
+    (feed (stepFor .ascii) decServer [1, 2] false [58, 48, 49, 48, 54] (asciiFrame 2 6 [0, 1, 0x12, 0x34])).1 = [] := by
+  refine ⟨by rfl, ?_, by rfl⟩
+  simp [Touches, bcast]
 
 end Pymodbus.Props.C10
